@@ -20,6 +20,7 @@ import (
 	"pgregory.net/rapid"
 
 	"github.com/tochemey/goakt/v4/actor"
+	"github.com/tochemey/goakt/v4/eventstream"
 	"github.com/tochemey/goakt/v4/internal/vfkit"
 	"github.com/tochemey/goakt/v4/log"
 )
@@ -461,6 +462,7 @@ type c45StageErr struct{ stage int }
 func (e *c45StageErr) Error() string { return "c45: stage " + strconv.Itoa(e.stage) + " failed" }
 
 var (
+	c45Events   eventstream.Subscriber
 	c45System   actor.ActorSystem
 	c45StallMax = 12 * time.Second
 )
@@ -777,6 +779,44 @@ func c45Livelocked(boxes []*c45Mailbox) (int, int64, bool) {
 	return 0, 0, false
 }
 
+// c45DrainPanics returns the suspension reasons of stream stage actors published on
+// the actor system's event stream since the last call. No stage function of the
+// grammar panics, so a suspended stage actor is a defect of the stream runtime.
+func c45DrainPanics() []string {
+	var out []string
+	if c45Events == nil {
+		return nil
+	}
+	for m := range c45Events.Iterator() {
+		if ev, ok := m.Payload().(*actor.ActorSuspended); ok && strings.HasPrefix(ev.ActorPath().Name(), "stream-") {
+			reason := ev.Reason()
+			if len(reason) > 160 {
+				reason = reason[:160]
+			}
+			out = append(out, ev.ActorPath().Name()+": "+reason)
+		}
+	}
+	return out
+}
+
+// c45WireRace handles a run in which a stage actor panicked. Every observed instance
+// is the materializer's wiring race (traffic from an eagerly pulling stage reaches a
+// stage before its stageWire; the stage dereferences a nil neighbour PID).
+func c45WireRace(x *vfkit.X, c *c45Case, what string, stalled bool) {
+	fp := "stage-actor-panic"
+	if strings.Contains(what, "nil pointer") || strings.Contains(what, "index out of range") || strings.Contains(what, "wire stage") {
+		fp = c45FpWireRace
+	}
+	if x.Known(fp) {
+		x.Class("known:" + fp)
+		if stalled {
+			x.Class("known:" + fp + ":stall")
+		}
+		return
+	}
+	x.Failf(fp, "%s (program %s, fusion %d)", what, c45Shape(c), c.Fusion)
+}
+
 func c45Execute(x *vfkit.X, c *c45Case, src Source[int64], sl *c45Sleeper) c45Run {
 	var r c45Run
 	ctx := context.Background()
@@ -845,40 +885,37 @@ func c45Execute(x *vfkit.X, c *c45Case, src Source[int64], sl *c45Sleeper) c45Ru
 	g, boxes := c45Harden(g, x.Known(c45FpLivelock), &actors)
 
 	from := atomic.LoadUint64(&streamSeq)
+	c45DrainPanics()
 	h, err := g.Run(ctx, c45System)
 	if err != nil {
 		c45Reap(from)
 		if strings.Contains(err.Error(), "wire stage") {
-			// an eagerly pulling stage (fused run, parallel map) produced traffic for a stage
-			// that the materializer had not wired yet
-			if x.Known(c45FpWireRace) {
-				x.Class("known:run-fails-wire-race")
-				r.skipped = true
-				return r
-			}
-			x.Failf(c45FpWireRace, "RunnableGraph.Run of a valid graph failed: %v (program %s, fusion %d)", err, c45Shape(c), c.Fusion)
+			time.Sleep(time.Millisecond)
+			c45WireRace(x, c, fmt.Sprintf("RunnableGraph.Run of a valid graph failed: %v; stage panics: %s", err, strings.Join(c45DrainPanics(), " | ")), false)
+			r.skipped = true
+			return r
 		}
 		x.Failf("run-error", "RunnableGraph.Run failed: %v", err)
 	}
 	defer c45Reap(from)
 	started := time.Now()
-	tick := time.NewTicker(400 * time.Millisecond)
-	unwiredPolls, unwiredKind := 0, ""
+	tick := time.NewTicker(300 * time.Millisecond)
+	var panics []string
+	panicPolls := 0
 wait:
 	for {
 		select {
 		case <-h.Done():
 			break wait
 		case <-tick.C:
-			if kind, bad := c45Unwired(actors); bad && time.Since(started) > 2*time.Second {
-				unwiredPolls++
-				unwiredKind = kind
-				if unwiredPolls >= 3 {
+			panics = append(panics, c45DrainPanics()...)
+			if len(panics) > 0 {
+				// a stage actor panicked and was stopped by its supervisor: nothing will
+				// ever close Done() unless that stage was the sink
+				if panicPolls++; panicPolls >= 3 {
 					r.timedOut = true
 					break wait
 				}
-			} else {
-				unwiredPolls = 0
 			}
 			if time.Since(started) > c45StallMax {
 				r.timedOut = true
@@ -887,14 +924,18 @@ wait:
 		}
 	}
 	tick.Stop()
-	if r.timedOut && unwiredPolls >= 3 {
-		h.Abort()
-		if x.Known(c45FpWireRace) {
-			x.Class("known:stall-wire-race")
-			r.skipped = true
-			return r
+	panics = append(panics, c45DrainPanics()...)
+	if len(panics) > 0 {
+		how := "the stream completed 'normally' (Err()==nil) with whatever the sink had consumed"
+		if r.timedOut {
+			how = "Done() never closes"
+			h.Abort()
+		} else if h.Err() != nil {
+			how = fmt.Sprintf("the stream ended with %v", h.Err())
 		}
-		x.Failf(c45FpWireRace, "stream never terminates: a %s stage received traffic before its stageWire (its neighbour PIDs are still nil %.1fs after Run returned), died on a nil PID and Done() stays open (program %s, fusion %d)", unwiredKind, time.Since(started).Seconds(), c45Shape(c), c.Fusion)
+		c45WireRace(x, c, fmt.Sprintf("%s; stage panics: %s", how, strings.Join(panics, " | ")), r.timedOut)
+		r.skipped = true
+		return r
 	}
 	if r.timedOut {
 		h.Abort()
@@ -1215,6 +1256,9 @@ func c45StartSystem(t *testing.T) {
 		t.Fatalf("actor system start: %v", err)
 	}
 	c45System = sys
+	if sub, err := sys.Subscribe(); err == nil {
+		c45Events = sub
+	}
 	t.Cleanup(func() { _ = sys.Stop(context.Background()) })
 }
 
